@@ -106,14 +106,15 @@ def target_connection_to_sympy(which: str):
             kids = [mk(k, x, i) for i, (k, x) in enumerate(zip(kinds, exprs))]
             ids = {kids[0]: 7, kids[1]: 9}
 
-            class Me:
+            ns = {"sympify": lambda s: SQ.of(0) if s == "0" else None, "_is_boolean": lambda x: isinstance(x, bool), "isinstance": isinstance, "dict": dict,
+                  "Element": Element, "Container": Container, "Connection": Connection}
+
+            class Me(O.auto_methods(BASE, "Connection", ns)):
                 _elements = kids
 
                 def generate_element_identifiers(self, running):
                     asked.append(("ids", running))
                     return ids
-            ns = {"sympify": lambda s: SQ.of(0) if s == "0" else None, "_is_boolean": lambda x: isinstance(x, bool), "isinstance": isinstance, "dict": dict,
-                  "Element": Element, "Container": Container, "Connection": Connection}
             O.load(module, [qual], ns)
             out = ns["to_sympy"](Me(), substitute=True)
             tag = f"[{kinds[0]},{kinds[1]}]"
@@ -129,7 +130,7 @@ def target_connection_to_sympy(which: str):
                 else:
                     ok = ok and kw.get("identifiers") is ids and "identifier" not in kw
             sess.check("post", [], z3.BoolVal(ok and ("ids", False) in asked), 0, label=f"each child asked once, elements with their own identifier, connections/containers with the shared map{tag}")
-            empty = type("E", (), {"_elements": []})()
+            empty = type("E", (O.auto_methods(BASE, "Connection", ns),), {"_elements": []})()
             out0 = ns["to_sympy"](empty)
         sess.check_qeq("post", L.fresh_ctx([]).P, out0, SQ.of(0), 0, label="empty connection -> 0")
     return (f"{module}:{qual}", module, qual, run)
